@@ -1,6 +1,6 @@
 (* ScalarsProofs.v — round trip and accept-set characterisation of the scalar
    parsers of Scalars.v. *)
-From DS Require Import Base Utf8 Scalars.
+From DS Require Import Base Utf8 Pct PctProofs Scalars.
 From Coq Require Import ZifyBool.
 
 Ltac Zify.zify_post_hook ::= Z.to_euclidean_division_equations.
@@ -370,6 +370,84 @@ Proof.
   injection H as _ ->. reflexivity.
 Qed.
 
+(* ---------- uuid ---------- *)
+
+Lemma hex_pairs_hex_lower bs : bytes_ok bs = true -> hex_pairs (hex_lower bs) = Some bs.
+Proof.
+  induction bs as [|b bs IH]; intros H; [reflexivity|].
+  unfold bytes_ok in H. cbn [forallb] in H. apply andb_true_iff in H as [Hb H]. unfold byte_ok in Hb.
+  cbn [hex_lower hex_pairs].
+  rewrite (hex_val_lower (b / 16)) by lia. rewrite (hex_val_lower (b mod 16)) by lia.
+  rewrite (IH H). do 2 f_equal. lia.
+Qed.
+
+Lemma hex_pairs_spec : forall bs s,
+  hex_pairs s = Some bs -> length s = (2 * length bs)%nat /\ bytes_ok bs = true.
+Proof.
+  induction bs as [|x bs IH]; intros s H.
+  - destruct s as [|h [|l rest]]; cbn [hex_pairs] in H; [split; reflexivity|discriminate|].
+    destruct (hex_val h), (hex_val l), (hex_pairs rest); discriminate.
+  - destruct s as [|h [|l rest]]; cbn [hex_pairs] in H; [discriminate|discriminate|].
+    destruct (hex_val h) as [a|] eqn:Ha; [|discriminate].
+    destruct (hex_val l) as [b|] eqn:Hb; [|discriminate].
+    destruct (hex_pairs rest) as [bs'|] eqn:Hr; [|discriminate].
+    injection H as <- <-. destruct (IH _ Hr) as [Hl Hok].
+    pose proof (hex_val_lt16 _ _ Ha). pose proof (hex_val_lt16 _ _ Hb).
+    split; [cbn [length]; lia|].
+    unfold bytes_ok in *. cbn [forallb]. rewrite Hok. unfold byte_ok.
+    apply andb_true_iff. split; [lia|reflexivity].
+Qed.
+
+Theorem parse_uuid_print bs : uuid_ok bs = true -> parse_uuid (print_uuid bs) = Some bs.
+Proof.
+  unfold uuid_ok. intros H. apply andb_true_iff in H as [Hl Hb]. apply Nat.eqb_eq in Hl.
+  do 16 (destruct bs as [|? bs]; [discriminate Hl|]). destruct bs; [|discriminate Hl].
+  pose proof (hex_pairs_hex_lower _ Hb) as Hh.
+  unfold print_uuid. cbn [firstn skipn hex_lower app].
+  unfold parse_uuid. cbn [length Nat.eqb].
+  unfold parse_uuid_hyphenated. cbn [length Nat.eqb negb firstn skipn app].
+  unfold HYPHEN. rewrite !N.eqb_refl. cbn [andb].
+  cbn [hex_lower] in Hh. exact Hh.
+Qed.
+
+Theorem parse_uuid_sound s bs : parse_uuid s = Some bs -> uuid_ok bs = true.
+Proof.
+  assert (Hhy : forall s, parse_uuid_hyphenated s = Some bs -> uuid_ok bs = true).
+  { intros s0. unfold parse_uuid_hyphenated.
+    destruct (length s0 =? 36)%nat eqn:E; cbn [negb]; [|discriminate].
+    apply Nat.eqb_eq in E.
+    destruct (skipn 8 s0) as [|h1 r1'] eqn:E1; [discriminate|].
+    destruct (skipn 5 (h1 :: r1')) as [|h2 r2'] eqn:E2; [discriminate|].
+    destruct (skipn 5 (h2 :: r2')) as [|h3 r3'] eqn:E3; [discriminate|].
+    destruct (skipn 5 (h3 :: r3')) as [|h4 r4'] eqn:E4; [discriminate|].
+    destruct (_ && _); [|discriminate].
+    intros H. apply hex_pairs_spec in H as [Hlen Hok]. unfold uuid_ok. rewrite Hok, andb_true_r.
+    apply Nat.eqb_eq.
+    assert (L1 : length (h1 :: r1') = 28%nat) by (rewrite <- E1, skipn_length; lia).
+    assert (L2 : length (h2 :: r2') = 23%nat) by (rewrite <- E2, skipn_length; lia).
+    assert (L3 : length (h3 :: r3') = 18%nat) by (rewrite <- E3, skipn_length; lia).
+    assert (L4 : length (h4 :: r4') = 13%nat) by (rewrite <- E4, skipn_length; lia).
+    rewrite !app_length, !firstn_length, !skipn_length in Hlen. lia. }
+  unfold parse_uuid.
+  destruct (length s =? 32)%nat eqn:E32.
+  { unfold parse_uuid_simple. rewrite E32. intros H. apply Nat.eqb_eq in E32.
+    apply hex_pairs_spec in H as [Hlen Hok]. unfold uuid_ok. rewrite Hok, andb_true_r.
+    apply Nat.eqb_eq. lia. }
+  destruct (length s =? 36)%nat; [apply Hhy|].
+  destruct (length s =? 38)%nat.
+  { destruct s as [|c rest]; [discriminate|]. destruct (N.eqb_spec c 123); [|destruct c as [|p]; try discriminate].
+    - subst c. destruct (rev rest) as [|d inner]; [discriminate|].
+      destruct (N.eqb_spec d 125); [subst d; apply Hhy|].
+      destruct d as [|q]; [discriminate|]. intros H. exfalso.
+      revert H n. clear. intros H n.
+      (* the match on the literal 125 *)
+      repeat (destruct q as [q|q|]; try discriminate H); congruence.
+    - intros H. exfalso. revert H n. clear.
+      intros H n. repeat (destruct p as [p|p|]; try discriminate H); congruence. }
+  destruct (length s =? 45)%nat; [|discriminate].
+  destruct (str_eqb _ _); [apply Hhy|discriminate].
+Qed.
+
 (* ---------- all scalar types ---------- *)
 
 (* C09 clause 1a: every value of every scalar type survives print-then-parse *)
@@ -382,6 +460,7 @@ Proof.
   - rewrite (parse_char_print _ H). reflexivity.
   - rewrite (parse_int_print _ _ _ H). reflexivity.
   - rewrite H. reflexivity.
+  - rewrite (parse_uuid_print _ H). reflexivity.
 Qed.
 
 (* C09 clause 1b / C10: whatever the parser accepts is a value of the type
@@ -397,6 +476,7 @@ Proof.
   - destruct (parse_int signed bits s) eqn:E; [|discriminate]. intros [= <-].
     exact (parse_int_in_range _ _ _ _ E).
   - destruct (mem_str s variants) eqn:E; [|discriminate]. intros [= <-]. exact E.
+  - destruct (parse_uuid s) eqn:E; [|discriminate]. intros [= <-]. exact (parse_uuid_sound _ _ E).
 Qed.
 
 (* out-of-range numbers are refused: one past either end, for every width *)
